@@ -1,11 +1,13 @@
 import vlib
 
 CFG = dict(
-    imports=["From Verif.Common Require Import Prefix.", "From Verif.C36 Require Import Model Spec."],
-    checker="check_case",
+    imports=["From Verif.Common Require Import Prefix.", "From Verif.C36 Require Import Model Spec IpLpm."],
+    checker="check_xcase",
     n=dict(quick=240, thorough=12000),
     shard=25,
-    rule="operation sequences (12-40 ops: Update/Delete/Get/LPM/Covers/Intersects/ClosestDescendants/LookupPath/ToSlice) on "
+    rule="every fourth case: real calc.IpTrie (iplpm.go), 10-35 ops InsertKey/DeleteKey/GetKeys/GetLongestPrefixCidr/"
+         "GetLongestPrefixCidrWithNamespaceIsolation over 3-9 keys, non-trivial = two live (cidr,key) pairs or a multi-key CIDR seen; "
+         "other cases: operation sequences (12-40 ops: Update/Delete/Get/LPM/Covers/Intersects/ClosestDescendants/LookupPath/ToSlice) on "
          "the real CIDRTrie, IPv4 (60%) and IPv6 (40%), prefixes drawn from a per-case pool concentrated in 10.0.0.0/28 and "
          "fd00::/124 plus parents/children/siblings of pool members and boundary prefixes (/0, the 64-bit word boundary, "
          "all-ones); LPM queries are host addresses 3 times out of 4; non-trivial = at least 3 prefixes stored at once, at "
@@ -13,10 +15,20 @@ CFG = dict(
     trusted=["Coq 8.16.1 kernel + vm_compute",
              "hand-written model coq/theories/C36/Model.v tied to felix/ip/trie.go by this correspondence run",
              "Go driver harness/C36 (overlay build, tag verif)"],
-    assumptions=["CIDRs are normalised (host bits zero), as produced by every constructor in felix/ip",
+    assumptions=["go-patricia (third party, under felix/calc/iplpm.go) is abstracted as a finite map keyed by (ip version, prefix) whose "
+                 "VisitPrefixes visits exactly the stored CIDRs containing the address, in any order",
+                 "CIDRs are normalised (host bits zero), as produced by every constructor in felix/ip",
                  "uint32 / uint64-pair address arithmetic modelled as N below 2^w; data values are non-nil (Update panics on nil)",
-                 "felix/calc/iplpm.go wraps the third-party go-patricia trie and is not modelled"],
+                 "IpTrie stream: the implementation may agree with the model of DeleteKey as pinned or as patched by fixes/C36-iplpm-deletekey-nonmember.patch; the oracle (set semantics) decides"],
 )
+
+def _classify(line):
+    # IpTrie.DeleteKey(cidr, key) deletes the CIDR's only key even when it is a different key
+    if "iplpm:non-member-delete-of-single-key-cidr" in line.get("tags", []):
+        return "iplpm-deletekey-nonmember-single"
+    return None
+
+CFG["classify"] = _classify
 
 def run(ctx):
     return vlib.standard_flow(ctx, CFG)
@@ -27,7 +39,8 @@ MANIFEST = dict(
          "and IPv6): the well-formedness invariant is preserved by Update/Delete, ToSlice is the sorted finite map of "
          "stored prefixes, and Get/LPM (host and arbitrary CIDR queries)/Covers/Intersects/ClosestDescendants/LookupPath "
          "equal direct prefix arithmetic over that map for every history; the specification oracle is proved to accept "
-         "every model run (c36_model_meets_spec); plus a correspondence run of model and spec "
-         "oracle against the real Go trie.",
+         "every model run (c36_model_meets_spec); felix/calc/iplpm.go (IpTrie) modelled over an abstract patricia map with a set-semantics "
+         "oracle and a refuted DeleteKey statement (known finding + fix patch); plus a correspondence run of models and spec "
+         "oracles against the real Go code.",
     note="Trusted: Coq kernel; hand-written model tied to the code only by the correspondence run; Go driver.",
 )
